@@ -234,7 +234,7 @@ def run(tier, report):
         first = None
         for name, cap in (("cells", None), ("pairs", None), ("shapes", 5000 if tier == "quick" else None)) + (
                 () if tier == "quick" else (("sweep", None),)):
-            result = core.tlc("MCExcel", "Excel_%s.cfg" % name, timeout=3000)
+            result = core.tlc("MCExcelSweep" if name == "sweep" else "MCExcel", "Excel_%s.cfg" % name, timeout=3000)
             core.require_coverage(result, ["AddRow", "Start", "ReadRow", "Finish"], "Excel/" + name)
             report.add_tlc("Excel %s" % name, result)
             vectors = sorted(result.by_tag("VEC"), key=core.json.dumps)
